@@ -30,8 +30,9 @@ VARIABLES l,      \* next trace line
           start,  \* backfill start CAS of this trace, per collection
           nfail,  \* number of FAIL tuples printed so far
           evlog,  \* per collection: <<line, event>> of every mutation so far (concurrent traces)
-          verlog  \* per collection: <<line, event>> describing every version a key has had
-vars == <<l, docs, obs, dumps, clock, start, nfail, evlog, verlog>>
+          verlog, \* per collection: <<line, event>> describing every version a key has had
+          auxs    \* last recorded result of every SQL query / view query, per collection and kind
+vars == <<l, docs, obs, dumps, clock, start, nfail, evlog, verlog, auxs>>
 
 B(tok) == BodyTab[tok]
 XV(x)  == [t |-> x.t, cas |-> x.cas, crc |-> B(x.crc)]
@@ -102,6 +103,47 @@ PropsOf(e, pre, post) ==
     \cup (IF e.p \notin {"-", "setup"} THEN {"C03"} ELSE {})
 
 ---------------------------------------------------------------------------
+(* SQL queries over $_keyspace (C19) and view queries (C12) of one collection *)
+AuxKinds == {"q-all", "q-v", "q-s", "view", "viewdesc", "viewlimit", "viewkey", "viewcount"}
+RowOf(r) == [id |-> r.id, body |-> B(r.body), xa |-> XaOf(r.xa), vals |-> r.vals]
+RowsOf(s) == IF Len(s) = 0 THEN <<>> ELSE [i \in 1..Len(s) |-> RowOf(s[i])]
+TokRank(t) == CASE t = "-" -> 0 [] t = "J1" -> 1 [] t = "J2" -> 2 [] t = "J3" -> 3 [] t = "x1" -> 1 [] t = "x2" -> 2 [] OTHER -> 9
+KeySeq(S) == IF S = {} THEN <<>> ELSE IF S = {"k1"} THEN <<"k1">> ELSE IF S = {"k2"} THEN <<"k2">> ELSE <<"k1", "k2">>
+QRow(k, d) == [id |-> k, body |-> d.body, xa |-> d.xa, vals |-> <<>>]
+IdRow(k) == [id |-> k, body |-> NoBody, xa |-> NoXa, vals |-> <<>>]
+VV(d) == IF d.json /\ d.body.k = "obj" THEN d.body.o["v"] ELSE "-"
+VA(d) == IF d.json /\ d.body.k = "obj" THEN d.body.o["a"] ELSE "-"
+VRow(k, d) == [id |-> k, body |-> NoBody, xa |-> NoXa, vals |-> <<VV(d), d.xa["_s"].t, VA(d), d.xa["u"].t, d.xa["_t"].t>>]
+Indexed(d) == HasBody(d) \/ HasXattrs(d)
+(* view rows in JSON collation order of the emitted key, then document id *)
+ViewSeq(ds) ==
+    LET S == {k \in Keys : Indexed(ds[k])}
+        less(a, b) == \/ TokRank(VV(ds[a])) < TokRank(VV(ds[b]))
+                      \/ (VV(ds[a]) = VV(ds[b]) /\ TokRank(ds[a].xa["_s"].t) < TokRank(ds[b].xa["_s"].t))
+                      \/ (VV(ds[a]) = VV(ds[b]) /\ ds[a].xa["_s"].t = ds[b].xa["_s"].t /\ a = "k1") IN
+    IF S = {"k1", "k2"} THEN (IF less("k1", "k2") THEN <<VRow("k1", ds["k1"]), VRow("k2", ds["k2"])>>
+                              ELSE <<VRow("k2", ds["k2"]), VRow("k1", ds["k1"])>>)
+    ELSE IF S = {} THEN <<>> ELSE LET k == CHOOSE x \in S : TRUE IN <<VRow(k, ds[k])>>
+Rev(s) == IF Len(s) = 0 THEN <<>> ELSE [i \in 1..Len(s) |-> s[Len(s) + 1 - i]]
+SelSeq(s, P(_)) == SelectSeq(s, P)
+ExpectedAux(kind, ds) ==
+    CASE kind = "q-all" -> LET ks == KeySeq({k \in Keys : HasBody(ds[k])}) IN
+                           IF ks = <<>> THEN <<>> ELSE [i \in 1..Len(ks) |-> QRow(ks[i], ds[ks[i]])]
+      [] kind = "q-v" -> LET ks == KeySeq({k \in Keys : HasBody(ds[k]) /\ ds[k].body.k = "obj" /\ ds[k].body.o["v"] = "J1"}) IN
+                         IF ks = <<>> THEN <<>> ELSE [i \in 1..Len(ks) |-> IdRow(ks[i])]
+      [] kind = "q-s" -> LET ks == KeySeq({k \in Keys : HasBody(ds[k]) /\ ds[k].xa["_s"].t = "x1"}) IN
+                         IF ks = <<>> THEN <<>> ELSE [i \in 1..Len(ks) |-> IdRow(ks[i])]
+      [] kind \in {"view", "viewfresh"} -> ViewSeq(ds)
+      [] kind = "viewdesc" -> Rev(ViewSeq(ds))
+      [] kind = "viewlimit" -> IF ViewSeq(ds) = <<>> THEN <<>> ELSE <<ViewSeq(ds)[1]>>
+      [] kind = "viewkey" -> SelSeq(ViewSeq(ds), LAMBDA r : r.vals[1] = "J1" /\ r.vals[2] = "-")
+      [] OTHER -> <<>>
+BriefRows(s) == [i \in 1..Len(s) |-> <<s[i].id, BB(s[i].body), s[i].vals, [x \in XNames |-> s[i].xa[x].t]>>]
+CountOK(rows, ds) ==
+    LET n == Len(ViewSeq(ds)) IN
+    \/ (n = 0 /\ rows = <<>>)
+    \/ (Len(rows) = 1 /\ Len(rows[1].vals) = 3 /\ rows[1].vals[3] = ToString(n))
+
 Init == /\ l = 1
         /\ docs = [c \in Colls |-> [k \in Keys |-> AbsentDoc]]
         /\ obs = [c \in Colls |-> [k \in Keys |-> AbsentObs]]
@@ -111,6 +153,7 @@ Init == /\ l = 1
         /\ nfail = 0
         /\ evlog = [c \in Colls |-> <<>>]
         /\ verlog = [c \in Colls |-> <<>>]
+        /\ auxs = [c \in Colls |-> [kd \in AuxKinds |-> <<>>]]
 
 Reset(e) ==
     /\ docs' = [c \in Colls |-> [k \in Keys |-> AbsentDoc]]
@@ -121,6 +164,7 @@ Reset(e) ==
     /\ nfail' = nfail
     /\ evlog' = [c \in Colls |-> <<>>]
     /\ verlog' = [c \in Colls |-> <<>>]
+    /\ auxs' = [c \in Colls |-> [kd \in AuxKinds |-> <<>>]]
 
 (* new observation table after line e *)
 NewObs(e) ==
@@ -136,6 +180,14 @@ NewDumps(e) ==
         THEN EvsOf(e.dump[CHOOSE i \in 1..Len(e.dump) : e.dump[i].c = c].evs)
         ELSE dumps[c]]
 DumpLogged(e) == {e.dump[i].c : i \in 1..Len(e.dump)}
+
+NewAuxs(e) ==
+    [c \in Colls |-> [kd \in AuxKinds |->
+        IF \E i \in 1..Len(e.aux) : e.aux[i].c = c /\ e.aux[i].kind = kd
+        THEN LET a == e.aux[CHOOSE i \in 1..Len(e.aux) : e.aux[i].c = c /\ e.aux[i].kind = kd] IN
+             IF a.err = "" THEN RowsOf(a.rows) ELSE <<[id |-> "error: " \o a.err, body |-> NoBody, xa |-> NoXa, vals |-> <<>>]>>
+        ELSE auxs[c][kd]]]
+HasAux(e) == Len(e.aux) > 0 \/ \E c \in Colls, kd \in AuxKinds : auxs[c][kd] # <<>>
 
 LiveOf(e, c) == EvsOf(e.live[CHOOSE i \in 1..Len(e.live) : e.live[i].c = c].evs)
 
@@ -259,13 +311,29 @@ Call(e) ==
                 /\ Fail({"C09"}, e, <<"dump-from", e.dump2[j].c>>,
                         BriefEvs(ExpectedDump(e.dump2[j].c, newDocs[e.dump2[j].c], e.dump2[j].start)),
                         BriefEvs(DumpBody(EvsOf(e.dump2[j].evs))))})
+        \* ---- SQL queries see exactly the live documents (C19); view queries equal the map function applied
+        \*      to the current documents, in collation order, whatever the index has been through (C12)
+        na == NewAuxs(e)
+        auxOn == \E i \in 1..Len(e.aux) : TRUE
+        fAux ==
+            IF ~auxOn /\ \A kd \in AuxKinds : auxs[c][kd] = <<>> THEN 0
+            ELSE Cardinality({kd \in AuxKinds \ {"viewcount"} : na[c][kd] # ExpectedAux(kd, newDocs[c])
+                    /\ Fail(IF kd \in {"q-all", "q-v", "q-s"} THEN {"C19"} ELSE {"C12"}, e, <<"aux", kd, c>>,
+                            BriefRows(ExpectedAux(kd, newDocs[c])), BriefRows(na[c][kd]))})
+                 + F(CountOK(na[c]["viewcount"], newDocs[c]), {"C12"}, <<"aux", "viewcount", c>>, Len(ViewSeq(newDocs[c])), BriefRows(na[c]["viewcount"]))
+        fFresh2 ==
+            Cardinality({i \in 1..Len(e.aux) : e.aux[i].kind = "viewfresh"
+                /\ (e.aux[i].err # "" \/ RowsOf(e.aux[i].rows) # ExpectedAux("viewfresh", newDocs[e.aux[i].c]))
+                /\ Fail({"C12"}, e, <<"aux", "viewfresh", e.aux[i].c>>, BriefRows(ExpectedAux("viewfresh", newDocs[e.aux[i].c])),
+                        IF e.aux[i].err # "" THEN e.aux[i].err ELSE BriefRows(RowsOf(e.aux[i].rows)))})
     IN
     /\ docs' = newDocs
+    /\ auxs' = na
     /\ obs' = no
     /\ dumps' = nd
     /\ clock' = IF mut /\ regular /\ ~isPurge /\ postObs.cas > clock THEN postObs.cas ELSE clock
     /\ start' = start
-    /\ nfail' = nfail + fStep + fRev + fFresh + fReaders + fOthers + fLive + fDump + fDump2
+    /\ nfail' = nfail + fStep + fRev + fFresh + fReaders + fOthers + fLive + fDump + fDump2 + (IF isPurge THEN 0 ELSE fAux + fFresh2)
     /\ evlog' = IF mut /\ ~isPurge THEN [evlog EXCEPT ![c] = Append(@, <<e.i, EventOf(k, post, CollId(c))>>)] ELSE evlog
     /\ verlog' = [c2 \in Colls |->
                     LET ks == {k2 \in Keys : newDocs[c2][k2] # docs[c2][k2]} IN
@@ -349,7 +417,7 @@ Feeds(e) ==
             IN IF f.ckpt = "" THEN 0 ELSE fSkip + fCkpt
         total == SumOver(1..Len(fs), chk) + SumOver(ids, chk15)
     IN
-    /\ UNCHANGED <<docs, obs, dumps, clock, start, evlog, verlog>>
+    /\ UNCHANGED <<docs, obs, dumps, clock, start, evlog, verlog, auxs>>
     /\ nfail' = nfail + total
 
 Next ==
